@@ -36,6 +36,14 @@ def gen_cases(prop, tier, seed):
     if tier == "thorough":
         for c in cases:
             c["nmax"] = None
+        # pools of several hundred samples (frequency estimates, likelihood products and distance sums on another scale)
+        for name, e in POOL.items():
+            if e.slow == 1 and e.nmax >= 40:
+                for i in range(2):
+                    s = stable_hash(seed, prop, name, "big", i)
+                    cases.append(poolcase.describe(name, s, n=[300, 700][i], labels=["half", "random"][i], batch=["2-3", "1"][i],
+                                                   data=["normal", "dups"][i]))
+                    cases[-1]["nmax"] = None
     else:
         for c in cases:
             c["nmax"] = 16
